@@ -32,7 +32,8 @@ ASSUMPTIONS = [
 ]
 STUD = ('F7S', 'F7S8', 'FR', 'X5S', 'XSHL')
 BUTTON = ('NT', 'FT', 'PO', 'NS', 'N2L1D', 'FB', 'XHE', 'X5D')
-BIAS = dict(chips=('int',), rakes=('none',), stack_pool=(2, 3, 5, 8, 13, 20, 40, 100, 200))
+BIAS = dict(chips=('int', 'int', 'fraction'), rakes=('none',), stack_pool=(2, 3, 5, 8, 13, 20, 40, 100, 200))     # fraction:
+#           chip values with denominators 1, 2, 3 - blinds and straddles below one unit included
 
 
 class RigWorld(World):
